@@ -13,7 +13,7 @@ git apply "$D/patch.diff" || { echo "PATCH-DOES-NOT-APPLY"; rm -rf "$W"; exit 2;
 timeout 300 /venv/bin/python -W ignore demo_seed.py >/dev/null 2>&1; B=$?
 echo "demo: pristine rc=$A changed rc=$B"
 if [ "${SKIP_TESTS:-0}" != 1 ]; then
-  /venv/bin/python -m pytest -q -p no:cacheprovider --timeout=900 --continue-on-collection-errors -p no:randomly -n 8 coba/tests 2>&1 | grep -E "^(FAILED|ERROR)" | sed 's/ - .*//' | sort > "$W/fails.txt"
+  /venv/bin/python -m pytest -q -p no:cacheprovider --timeout=900 --continue-on-collection-errors --ignore=coba/tests/test_performance.py coba/tests 2>&1 | grep -E "^(FAILED|ERROR)" | sed 's/ - .*//' | sort > "$W/fails.txt"
   echo "tests: failing with change (baseline failures excluded):"; comm -23 "$W/fails.txt" /verif/tools/baseline_fails.txt | sed 's/^/   /'
 fi
 rm -f demo_seed.py
